@@ -8,6 +8,7 @@ import (
 
 	"github.com/cosmos/cosmos-sdk/codec"
 	sdk "github.com/cosmos/cosmos-sdk/types"
+	"github.com/cosmos/cosmos-sdk/types/query"
 
 	nfttypes "mods.irisnet.org/modules/nft/types"
 
@@ -20,7 +21,7 @@ func init() {
 		ID: "C14", Level: "exploration",
 		Rule: "cases = chains driven by the NFT director (issue-class with every restriction-flag combination / mint / edit / transfer with and without metadata change incl. the do-not-modify sentinel / burn / re-mint / transfer-class, each by owner, class creator and stranger); after every tx the complete NFT state read through the module's queries is compared with a reference ownership map; non-trivial = successful tx or targeted hostile rejection; distinct = distinct (op, actor role, class flags, change kind, outcome)",
 		Assume: []string{"the set of addresses that can own tokens is the set the director ever used as recipient", "a failed tx leaves no trace because BaseApp drops its branch"},
-		Cases:  func(t string) int { return tierN(t, 8, 48) },
+		Cases:  func(t string) int { return tierN(t, 8, 32) },
 		Run:    runNFT,
 	})
 }
@@ -421,28 +422,42 @@ type nftSnap struct {
 func (w *nftWorkload) snapshot(ctx sdk.Context) *nftSnap {
 	k := w.r.K.NFT
 	s := &nftSnap{Classes: map[string]*nftClass{}, Supply: map[string]uint64{}, Balance: map[string]map[string]uint64{}, OwnerIDs: map[string]map[string][]string{}}
-	dres, err := k.Denoms(ctx, &nfttypes.QueryDenomsRequest{})
-	if err != nil {
-		s.Errs = append(s.Errs, "Denoms: "+err.Error())
-		return s
+	var denoms []nfttypes.Denom
+	for key := []byte(nil); ; {
+		dres, err := k.Denoms(ctx, &nfttypes.QueryDenomsRequest{Pagination: pageFrom(key)})
+		if err != nil {
+			s.Errs = append(s.Errs, "Denoms: "+err.Error())
+			return s
+		}
+		denoms = append(denoms, dres.Denoms...)
+		if dres.Pagination == nil || len(dres.Pagination.NextKey) == 0 {
+			break
+		}
+		key = dres.Pagination.NextKey
 	}
 	var addrs []string
 	for a := range w.addrs {
 		addrs = append(addrs, a)
 	}
 	sort.Strings(addrs)
-	for _, d := range dres.Denoms {
+	for _, d := range denoms {
 		c := &nftClass{Creator: d.Creator, MintRestricted: d.MintRestricted, UpdateRestricted: d.UpdateRestricted, Name: d.Name, Schema: d.Schema, Symbol: d.Symbol, Desc: d.Description, URI: d.Uri, URIHash: d.UriHash, Data: d.Data, Toks: map[string]*nftTok{}}
-		cres, err := k.Collection(ctx, &nfttypes.QueryCollectionRequest{DenomId: d.Id})
-		if err != nil {
-			s.Errs = append(s.Errs, "Collection: "+err.Error())
-			continue
-		}
-		for _, n := range cres.Collection.NFTs {
-			if _, dup := c.Toks[n.Id]; dup {
-				s.Errs = append(s.Errs, fmt.Sprintf("collection %s lists token %s twice", d.Id, n.Id))
+		for key := []byte(nil); ; {
+			cres, err := k.Collection(ctx, &nfttypes.QueryCollectionRequest{DenomId: d.Id, Pagination: pageFrom(key)})
+			if err != nil {
+				s.Errs = append(s.Errs, "Collection: "+err.Error())
+				break
 			}
-			c.Toks[n.Id] = &nftTok{Owner: n.Owner, Name: n.Name, URI: n.URI, URIHash: n.UriHash, Data: n.Data}
+			for _, n := range cres.Collection.NFTs {
+				if _, dup := c.Toks[n.Id]; dup {
+					s.Errs = append(s.Errs, fmt.Sprintf("collection %s lists token %s twice", d.Id, n.Id))
+				}
+				c.Toks[n.Id] = &nftTok{Owner: n.Owner, Name: n.Name, URI: n.URI, URIHash: n.UriHash, Data: n.Data}
+			}
+			if cres.Pagination == nil || len(cres.Pagination.NextKey) == 0 {
+				break
+			}
+			key = cres.Pagination.NextKey
 		}
 		s.Classes[d.Id] = c
 		sres, err := k.Supply(ctx, &nfttypes.QuerySupplyRequest{DenomId: d.Id})
@@ -458,14 +473,20 @@ func (w *nftWorkload) snapshot(ctx sdk.Context) *nftSnap {
 		}
 	}
 	for _, a := range addrs {
-		ores, err := k.NFTsOfOwner(ctx, &nfttypes.QueryNFTsOfOwnerRequest{Owner: a})
-		if err != nil {
-			s.Errs = append(s.Errs, "NFTsOfOwner: "+err.Error())
-			continue
-		}
 		m := map[string][]string{}
-		for _, idc := range ores.Owner.IDCollections {
-			m[idc.DenomId] = append(m[idc.DenomId], idc.TokenIds...)
+		for key := []byte(nil); ; {
+			ores, err := k.NFTsOfOwner(ctx, &nfttypes.QueryNFTsOfOwnerRequest{Owner: a, Pagination: pageFrom(key)})
+			if err != nil {
+				s.Errs = append(s.Errs, "NFTsOfOwner: "+err.Error())
+				break
+			}
+			for _, idc := range ores.Owner.IDCollections {
+				m[idc.DenomId] = append(m[idc.DenomId], idc.TokenIds...)
+			}
+			if ores.Pagination == nil || len(ores.Pagination.NextKey) == 0 {
+				break
+			}
+			key = ores.Pagination.NextKey
 		}
 		s.OwnerIDs[a] = m
 	}
@@ -552,12 +573,15 @@ func (w *nftWorkload) compare(br *rig.BlockRecord, tx *rig.TxRecord, s *nftSnap)
 	run.Sample("nft-state", map[string]any{"height": br.Height, "after": msgBrief(tx.Msgs), "classes": len(s.Classes)})
 }
 
+// The module's list queries return at most 100 entries per page: read all pages.
+func pageFrom(key []byte) *query.PageRequest { return &query.PageRequest{Key: key, Limit: 100} }
+
 func runNFT(run *ev.Run, c int) {
 	w := newNFTWorkload()
 	r := rig.New(rig.Options{Seed: fmt.Sprintf("nft-%d-%d", run.Seed, c), NumAccounts: 5, Balances: sdk.NewCoins(sdk.NewInt64Coin(rig.BondDenom, 1_000_000)), InflationOff: true})
 	w.Attach(run, r)
 	r.Snapshot = func(ctx sdk.Context) any { return w.snapshot(ctx) }
-	blocks := tierN(run.Tier, 200, 700)
+	blocks := tierN(run.Tier, 200, 450)
 	for b := 0; b < blocks; b++ {
 		br := r.DeliverBlock(time.Second, w.Next(b))
 		if br.FinalErr != nil {
